@@ -254,6 +254,7 @@ DRIVERS = {
     'convcfg_p1': {'src': 'drv_convcfg.cpp', 'flags': ['-DPART=1']},
     'convcfg_p2': {'src': 'drv_convcfg.cpp', 'flags': ['-DPART=2']},
     'elastic_all': {'src': 'drv_elastic.cpp', 'flags': []},
+    'elastic_all_thr': {'src': 'drv_elastic.cpp', 'flags': ['-DTHROWING=1']},
     'text_all': {'src': 'drv_text.cpp', 'flags': []},
     'blocks_p0': {'src': 'drv_blocks.cpp', 'flags': ['-DPART=0']},
     'blocks_p1': {'src': 'drv_blocks.cpp', 'flags': ['-DPART=1']},
@@ -371,6 +372,17 @@ def _expected_throw(fam, cfg, op, args):
         return ((True, ('divide_by_zero',)) if opn == 'div' and a[1] == 0 else (False, ()))
     if fam == 4:
         return ((True, ('divide_by_zero',)) if opn in ('div', 'rem') and a[1] == 0 else (False, ()))
+    if fam in (11, 12, 13):
+        # elastic types: args of einteger are 'sa,maga,sb,magb' (hex); edecimal / erational carry the operand strings as bytes
+        if opn not in ('div', 'rem'):
+            return False, ()
+        f = args.split(',')
+        if fam == 11:
+            bzero = f[3].strip('0') == ''
+        else:
+            words = bytes(int(x, 16) for x in f).decode().split(' ')
+            bzero = (words[1] if fam == 12 else words[2]).lstrip('-').strip('0') == ''
+        return (True, ('divide_by_zero',)) if bzero else (False, ())
     if fam == 5:
         n = c[0]
         if opn == 'div' and a[1] == 1 << (n - 2):
@@ -551,7 +563,7 @@ PLANS = {
         'level': 'translation_validation', 'coq': 'Properties_C19',
         'rule': 'the same driver source compiled twice per number system (*_THROW_ARITHMETIC_EXCEPTION off / on), run on identical operands and '
                 'compared line by line: a throw must occur exactly for the operands the property names (posit: NaR operand, division by zero/NaR; '
-                'cfloat: signalling NaN operand, division by zero/NaN; fixpnt, integer, lns: division by zero) with the documented exception type, '
+                'cfloat: signalling NaN operand, division by zero/NaN; fixpnt, integer, lns, einteger, edecimal, erational: division by zero) with the documented exception type, '
                 'and every result that is returned must be bit-identical to the quiet build. exhaustive on all operand pairs of the small '
                 'configurations, sampled above. non-trivial = lines where the builds differ (exceptions)',
         'assumptions': ['cfloat division with a quiet-NaN dividend is not judged (the property lists signalling NaN operands only; the code throws)'],
@@ -560,7 +572,9 @@ PLANS = {
                     pair('fixpnt_throw_exh', 'fixpnt_small', 'fixpnt_small_thr', ['--mode', 'exh', '--group', 'arith'], ['--mode', 'exh', '--group', 'arith'], cmp_throw, exhaustive=True),
                     pair('integer_throw_exh', 'integer_small', 'integer_small_thr', ['--mode', 'exh', '--group', 'arith'], ['--mode', 'exh', '--group', 'arith'], cmp_throw, exhaustive=True),
                     pair('integer_throw_rnd', 'integer_large', 'integer_large_thr', ['--mode', 'rnd', '--group', 'arith', '--count', '600'], ['--mode', 'rnd', '--group', 'arith', '--count', '10000'], cmp_throw),
-                    pair('lns_throw_exh', 'lns_small', 'lns_small_thr', ['--mode', 'exh', '--group', 'muldiv'], ['--mode', 'exh', '--group', 'muldiv'], cmp_throw, exhaustive=True)] +
+                    pair('lns_throw_exh', 'lns_small', 'lns_small_thr', ['--mode', 'exh', '--group', 'muldiv'], ['--mode', 'exh', '--group', 'muldiv'], cmp_throw, exhaustive=True),
+                    pair('elastic_throw_rnd', 'elastic_all', 'elastic_all_thr', ['--mode', 'rnd', '--count', '300', '--zero'], ['--mode', 'rnd', '--count', '6000', '--zero'], cmp_throw, shards=8,
+                         what='einteger / edecimal / erational, quiet vs *_THROW_ARITHMETIC_EXCEPTION, a quarter of the divisors zero')] +
                    [pair('cfloat_throw_exh%d' % k, 'cfloat_s%d' % k, 'cfloat_s%d_thr' % k, ['--mode', 'exh', '--group', 'arith'], ['--mode', 'exh', '--group', 'arith'], cmp_throw, exhaustive=True) for k in range(4)] +
                    [pair('cfloat_throw_rnd%d' % k, 'cfloat_s%d' % k, 'cfloat_s%d_thr' % k, ['--mode', 'rnd', '--group', 'arith', '--count', '1500'], ['--mode', 'rnd', '--group', 'arith', '--count', '30000'], cmp_throw, shards=4) for k in (10, 11)],
     },
